@@ -388,6 +388,9 @@ func (s *Sim) CurTask() int {
 // noteIO is called by simulated readers/writers for every operation.
 // It returns true when the operation happens after the call it belongs to has returned.
 func (s *Sim) noteIO(kind byte, op string, a, b int) (after bool) {
+	if s == nil {
+		return false // plain (unsimulated) use of the reader, e.g. in the race lane
+	}
 	s.mu.Lock()
 	defer s.mu.Unlock()
 	tid := -1
